@@ -182,7 +182,8 @@ def _od_from_items(items: list) -> dict:
         mem = z3.Store(mem, ks, z3.BoolVal(True))
         val = z3.Store(val, ks, z3.IntVal(v))
         rank = z3.Store(rank, ks, z3.IntVal(i + 1))
-    return dict(mem=mem, val=val, n=z3.IntVal(len(items)), rank=rank, top=z3.IntVal(len(items)))
+    return dict(mem=mem, val=val, n=z3.IntVal(len(items)), rank=rank, top=z3.IntVal(len(items)),
+                mark=z3.IntVal(0), t=z3.IntVal(len(items)))
 
 
 def build(eng: Any, st: State, d: Any) -> tuple[State, Any]:
